@@ -116,6 +116,13 @@ def _build(d):
     if d.pick(2):
         b = a + d.int(0, 800)
         b = min(b, RD.MAXSERIAL)
+    if d.pick(12) == 0:
+        # the two dates on either side of the fictitious 1900-02-29 (serial
+        # 60): DAYS is the difference of the SERIALS
+        return {'k': 'pair', 'a': d.int(1, 59), 'b': d.choice(
+            [61, 62, 100, 366, d.int(61, 60000)]), 'f': 'DAYS',
+            'mode': 'formula' if d.pick(2) else 'call', 'ak': 'serial',
+            'lc': False, 'rev': False}
     a, b = min(a, b), max(a, b)
     if b - a > 60000:
         b = a + (b - a) % 60000
